@@ -406,6 +406,8 @@ fn c04_judge(reference: &Execution, ex: &Execution) -> Option<(&'static str, Str
         }
     }
     match &ex.end {
+        // "that I/O error": the source's own error object (kind, message and payload)
+        End::Io(s) if triggered && !s.contains("/scripted-payload/") => Some(("io-error-identity", format!("the parser ended with an I/O error ({s}) that is not the source's own error object (its payload is gone)"))),
         End::Io(_) => None,
         End::Clean => Some(("clean-end-despite-fault", "the input was reported as successfully and completely parsed although the source failed".into())),
         End::Syntax { .. } => {
